@@ -126,7 +126,7 @@ pub fn run(args: &[String]) -> i32 {
     let only = args.first().map(|x| x == "--only").unwrap_or(false);
     let thorough = args.first().map(|x| x == "thorough").unwrap_or(false);
     let d = |s: &str| -> Decimal { s.parse().unwrap() };
-    let lits = vec![E::Lit(d("6"), ""), E::Lit(d("2"), ""), E::Lit(d("0"), ""), E::Lit(d("6"), "X"), E::Lit(d("3"), "X"), E::Lit(d("0"), "X"), E::Lit(d("4"), "Y")];
+    let lits = vec![E::Lit(d("6"), ""), E::Lit(d("2"), ""), E::Lit(d("0"), ""), E::Lit(d("6"), "X"), E::Lit(d("3"), "X"), E::Lit(d("0"), "X"), E::Lit(d("4"), "Y"), E::Lit(d("-5"), "X"), E::Lit(d("-2"), "")];
     let ops = ['+', '-', '*', '/'];
     let mut trees: Vec<(E, bool)> = Vec::new();
     // depth 1 and 2, fully parenthesised (evaluation half) and flat chains (precedence / associativity, parser half)
@@ -184,6 +184,20 @@ pub fn run(args: &[String]) -> i32 {
             _ => format!("({})", show(t, true)),
         };
         texts.push(s);
+    }
+    // unary minus written directly in operand position, also in front of literals that carry their own sign (`--5 X` is the
+    // negation of the literal -5 X), and doubled through parentheses
+    for a in &lits {
+        trees.push((E::Neg(Box::new(E::Neg(Box::new(a.clone())))), true));
+        texts.push(format!("(-(-{}))", show(a, true)));
+        for b in &lits {
+            for op in ops {
+                trees.push((E::Bin(op, Box::new(a.clone()), Box::new(E::Neg(Box::new(b.clone())))), true));
+                texts.push(format!("({} {} -{})", show(a, true), op, show(b, true)));
+                trees.push((E::Bin(op, Box::new(E::Neg(Box::new(a.clone()))), Box::new(b.clone())), true));
+                texts.push(format!("(-{} {} {})", show(a, true), op, show(b, true)));
+            }
+        }
     }
     if only {
         let ex = args.get(1).cloned().unwrap_or_default();
